@@ -122,6 +122,9 @@ META["rule"] += (
 META["rule"] += (
     " " + 'Added after the fifth round: a fifth of the weighted graphs have links of length exactly 0; the directed switch is handed over as bool / np.bool_ / 0-1.')
 
+META["rule"] += (
+    " " + 'Added after the seventh round: empty source / target selections (the empty sum); the returned attribute matrix is edited in place by the caller, then read back and used for strengths.')
+
 REFUSALS = ("NotImplementedError",)
 
 
